@@ -36,6 +36,9 @@ class Module:
         except SyntaxError as exc:
             raise AnalysisError(f'cannot parse {relpath}: {exc}') from exc
         self.digest = hashlib.sha256(self.text.encode('utf8')).hexdigest()[:16]
+        # locals of functions that are alpha-equivalent to the recorded reference get the recorded names back (engine/alphanorm.py)
+        from .alphanorm import normalise
+        self.alpha_normalised = normalise(self.tree, relpath)
         self._parents: Optional[Dict[ast.AST, ast.AST]] = None
         self._funcs: Optional[Dict[str, List[FuncNode]]] = None
         self._classes: Optional[Dict[str, ast.ClassDef]] = None
